@@ -34,7 +34,10 @@ ASSUMPTIONS = ['failures are modelled as error returns / short counts of individ
 WRITERS = ['file', 'file.json', 'py', 'py.nocompile']
 DESTS = ['absent', 'nested-absent', 'empty', 'old-content']
 DATA = {'empty': '', 'short': 'x = 1\n', 'big': ''.join('# line %06d of a large module\n' % i for i in range(2400)),
-        'non-ascii': 'name = "café 中文"\n'}
+        'non-ascii': 'name = "café 中文"\n',
+        # a text UTF-8 cannot hold completely (what errors='surrogateescape' makes of a Latin-1 octet): storing it short is
+        # no success
+        'lone-surrogate': 'name = "caf\udce9"\n'}
 OLD = 'previous = "complete old content"\n'
 MODNAME = 'TEST-MIB'
 
@@ -100,7 +103,10 @@ def judge_fs(d, fname, before, after, root, data, exc, rec, dry, writer_kind, al
     problems = []
     rel = os.path.relpath(d, root)
     key = os.path.normpath(os.path.join(rel, fname))
-    new = data.encode('utf-8')
+    try:
+        new = data.encode('utf-8')
+    except UnicodeEncodeError:
+        new = b'\x00 no octet string is this text \x00'   # only a writer error is right
     old = (before or {}).get(key)
     content = (after or {}).get(key)
     faults = '+'.join('%s=%s' % (s.split('.')[-1], f) for _, s, f in rec.injected) or 'no-fault'
